@@ -57,6 +57,8 @@ struct Finit { Elem operator()() const { TR.emit("{\"e\":\"Init\",\"t\":%d}", tl
 template <class ETS> static int run_ets(int N, unsigned long seed, int den) {
     ETS* ets = new ETS(Finit()); g_rank.clear();
     Sched S; S.stall_limit = 60000; S.log_schedule = true; focus_only(false);
+    // the root of the chain of slot arrays and the element count are the words of the growth protocol (PCT change points right after an access to them)
+    untrack_all(); track(&ets->my_root); track(&ets->my_count);
     S.spawn(N, [&](int id) {
         tl_id = id;
         for (int k = 0; k < 3; k++) {
